@@ -55,7 +55,9 @@ RULE = ("one case = one wrapper call, described completely by its parameters "
 	"visible); distinct = distinct parameter tuples.")
 ASSUMPTIONS = [
 	"device='cpu'; integer random_state; annotations are an int64 tensor",
-	"start=None: any centred placement is accepted (floor or ceil of "
+	"start=None: the placement of the library's own ersatz.substitute / "
+	"multisubstitute default (read off a probe call) is demanded; if it "
+	"cannot be probed any centred placement is accepted (floor or ceil of "
 	"(L-width)/2), for space per spacing row",
 	"layout: the index axes stated by the property (example, shuffle / spacing "
 	"row / annotation / argument rows) in the documented order; axes of size "
@@ -229,9 +231,31 @@ def sub_str(s, m, p):
 	return s[:p] + m + s[p + len(m):]
 
 
-def centred(L, w):
+def centred(L, w, widths=None, row=None):
+	"""Placement used when start=None.  The statement says the entry denotes
+	the input "with the motif substituted" / "with the motifs at spacing row
+	s", i.e. what the library's own primitives (ersatz.substitute /
+	ersatz.multisubstitute, monitored by C01) produce without a start; the
+	position is read off a probe call.  If the primitive cannot be probed,
+	both centred placements are accepted."""
 	d = L - w
-	return sorted({d // 2, (d + 1) // 2})
+	both = sorted({d // 2, (d + 1) // 2})
+	try:
+		from tangermeme import ersatz
+		probe = gen.ohe(["A" * L])
+		if widths is None:
+			out = ersatz.substitute(probe, "C" * w)
+		else:
+			out = ersatz.multisubstitute(probe, ["C" * k for k in widths],
+				[int(x) for x in row])
+		dec = gen.decode(out)[0]
+		p = dec.index("C")
+		if p in both and dec.count("C") == (w if widths is None
+			else sum(widths)):
+			return [p]
+	except Exception:
+		pass
+	return both
 
 
 class OracleError(Exception):
@@ -905,7 +929,8 @@ def case_space(cls, params, rec):
 		per_row = []
 		for row in grid:
 			tot = sum(widths) + sum(row)
-			cands = [start] if start is not None else centred(L, tot)
+			cands = [start] if start is not None else centred(L, tot, widths,
+				row)
 			per_row.append([])
 			for p in cands:
 				subs = multisub(seqs, per, row, p)
